@@ -10,6 +10,6 @@ PROP = dict(
 )
 META = dict(
     technique="Lean 4 proof (TPuts output = stripPadding; symbolic closed forms of every distinct cursor-address and colour program of the database; decoder round trips) + differential correspondence + decoders as oracle",
-    text="Tcell.Props.C15 proves that the TPuts model writes exactly stripPadding of its input whenever every $<...> it finds is a padding specification (and the repaired variant always), with the identity/unterminated/subsequence corollaries and delays only with a pad character; closed forms for every distinct SetCursor program of the regenerated database for all rows and columns, membership of every entry in a known family by kernel evaluation, decoder round trips; TColor folding/elision. The models are tied to terminfo.go by differential runs over padding strings, all entries x positions, all entries x colours; per-family decoders judge the real output.",
+    text="Tcell.Props.C15 proves for the TPuts model: strings without $< are written unchanged and equal stripPadding (partial tputs_spec), an unterminated $< is written verbatim, no delay is ever taken without a pad character, and the pinned code strips the non-padding $<x> (witness by decide; the repaired variant keeps it); closed forms for every distinct SetCursor program of the regenerated database for all rows and columns (64-bit), membership of every entry's program in that list and agreement with the convention its name implies by kernel evaluation, decoder round trips on boundary positions; TColor folding/elision and closed forms of the basic and the 256-colour setaf programs. The models are tied to terminfo.go by differential runs over padding strings, all entries x positions, all entries x colours; per-family decoders judge the real output.",
     note="Trusted: Lean kernel, correspondence (sampled; exhaustive over 0..300^2 positions in the thorough tier), the decoders. Finding on the pinned tree: TPuts strips $<...> whose content is not a padding specification.",
 )
